@@ -71,8 +71,10 @@ def roundtrip(ctx, d):
 _MDIB_XML = None
 
 
-def published_scope(d):
-    """The location scope a provider MDIB publishes after set_location(d)."""
+def published_scope(d, history=()):
+    """The location scope a provider MDIB publishes after set_location(d).  history: earlier locations of the device and
+    how the final one is applied - [[location, 'new' | 'in_place'], ...]: 'new' = set_location (a new associated state),
+    'in_place' = the associated state is updated inside a context state transaction with update_from_sdc_location."""
     import sdc11073.definitions_sdc  # noqa: F401
     from sdc11073.mdib import ProviderMdib
     from sdc11073.provider.scopesfactory import mk_scopes
@@ -81,7 +83,15 @@ def published_scope(d):
         _MDIB_XML = W.fixture('mdib_two_mds.xml')
     mdib = ProviderMdib.from_string(_MDIB_XML)
     loc_descr = sorted(x.Handle for x in mdib.descriptions.objects if type(x).__name__ == 'LocationContextDescriptorContainer')
-    mdib.xtra.set_location(_loc(d), location_context_descriptor_handle=loc_descr[0])
+    steps = [[h[0], 'new'] for h in history] + [[d, history[-1][1] if history else 'new']]
+    for i, (loc, mode) in enumerate(steps):
+        assoc = [x for x in mdib.context_states.descriptor_handle.get(loc_descr[0], [])
+                 if x.ContextAssociation == mdib.data_model.pm_types.ContextAssociation.ASSOCIATED]
+        if mode == 'in_place' and i > 0 and len(assoc) == 1:
+            with mdib.context_state_transaction() as mgr:
+                mgr.get_context_state(assoc[0].Handle).update_from_sdc_location(_loc(loc))
+        else:
+            mdib.xtra.set_location(_loc(loc), location_context_descriptor_handle=loc_descr[0])
     scopes = mk_scopes(mdib)
     return [s for s in scopes.text if s.lower().startswith('sdc.ctxt.loc:')], scopes
 
@@ -89,11 +99,12 @@ def published_scope(d):
 def containment(ctx, case):
     """published scope is inside loc and every generalisation, inside no location differing in a specified element."""
     from sdc11073.wsdiscovery.service import Service
-    d, other_value = case
+    d, other_value = case[0], case[1]
+    history = case[2] if len(case) > 2 else ()  # noqa: PLR2004
     out = []
     W.quiet_logging()
     try:
-        loc_scopes, all_scopes = published_scope(d)
+        loc_scopes, all_scopes = published_scope(d, history)
     except Exception as ex:  # noqa: BLE001
         if not R.exc_in_library(ex):
             raise
@@ -141,7 +152,8 @@ def containment(ctx, case):
                     out.append((f'{P}/inside-differing-location/{e}',
                                 f'location {d} publishes {loc_scopes[0]!r}, recognised inside {differing} which differs in {e}'))
                     break
-    ctx.case(case, _nontrivial_values(d), 'containment', classes=(f'set{len(set_elems)}',))
+    ctx.case(case, _nontrivial_values(d), 'containment', classes=(f'set{len(set_elems)}',) + (
+        (f'after-{len(history)}-earlier-locations/{history[-1][1]}',) if history else ()))
     return out
 
 
@@ -224,7 +236,8 @@ def shard(ctx, which, n):
     if which == 'roundtrip':
         R.hyp_campaign(ctx, which, st_location_dict(min_set=0), lambda d: roundtrip(ctx, d), n)
     elif which == 'containment':
-        R.hyp_campaign(ctx, which, st.tuples(st_location_dict(), st_value()), lambda c: containment(ctx, c), n)
+        earlier = st.lists(st.tuples(st_location_dict(), st.sampled_from(['new', 'in_place', 'in_place'])).map(list), max_size=2)
+        R.hyp_campaign(ctx, which, st.tuples(st_location_dict(), st_value(), earlier).map(list), lambda c: containment(ctx, c), n)
     else:
         R.hyp_campaign(ctx, which, st_filter_case(), lambda c: filtering(ctx, c), n)
 
@@ -241,6 +254,6 @@ def replay(part, case):
     if part == 'roundtrip':
         return roundtrip(ctx, case)
     if part == 'containment':
-        return containment(ctx, (case[0], case[1]))
+        return containment(ctx, list(case))
     own, svcs = case
     return filtering(ctx, (own, [tuple(s) for s in svcs]))
